@@ -124,6 +124,14 @@ fn run(c: &mut Case) {
     if tree.is_empty() {
         return;
     }
+    // a fifth of the trees carry one or two elements with ids outside the specification (read with unknown ids
+    // tolerated): such an element is nobody's sibling or ancestor and must not end an unknown-size master either
+    let with_raw = c.rng.chance(1, 5);
+    if with_raw {
+        let n = c.rng.urange(1, 2);
+        gen::add_raw_tags(&mut c.rng, &spec, &mut tree, n);
+        c.count("trees_with_raw_elements");
+    }
     let expected = flat(&tree);
     let paths = master_paths(&tree);
     if paths.is_empty() {
@@ -151,7 +159,7 @@ fn run(c: &mut Case) {
         v.push((1u64 << m.min(63)) - 1);
         v
     };
-    let cfg = RCfg { allow: 0, buffered: vec![], capacity: None, max_size: MaxSz::Set(Some(1 << 20)), eof_end: true };
+    let cfg = RCfg { allow: if with_raw { crate::rd::ALLOW_IDS } else { 0 }, buffered: vec![], capacity: None, max_size: MaxSz::Set(Some(1 << 20)), eof_end: true };
     for mask in masks {
         let mut t = tree.clone();
         for (k, p) in eligible.iter().enumerate() {
